@@ -21,6 +21,13 @@ func SelfTest() error {
 	if g := HOTP(k20, 1, 10, SHA1); g != "1094287082" {
 		return fmt.Errorf("RFC4226 31-bit value for count 1: got %s", g)
 	}
+	for _, v := range []uint32{0, 1, 9, 10, 999999, 1000000, 1094287082, 1284755224, 2147483647, 2000000000, 1410065408} {
+		for d := 1; d <= 10; d++ {
+			if Format(v, d) != FormatBig(v, d) {
+				return fmt.Errorf("Format(%d,%d) disagrees with the big-integer definition", v, d)
+			}
+		}
+	}
 	// RFC 6238 Appendix B
 	type tv struct {
 		t          int64
@@ -124,6 +131,12 @@ func SelfTest() error {
 				return fmt.Errorf("suite parser %q: got %+v", c.n, g)
 			}
 		}
+	}
+	if g, ok := ParseSuiteNameFold("OCRA-1:hotp-Sha256-8:c-qn10-psha1-s064-t5M"); !ok || g != (Suite{Raw: "OCRA-1:hotp-Sha256-8:c-qn10-psha1-s064-t5M", Hash: SHA256, Digits: 8, C: true, Q: true, Challenge: QN10, P: true, PasswordHash: PSHA1, S: true, T: true, TimeStep: 300}) {
+		return fmt.Errorf("folding suite parser: %+v %v", g, ok)
+	}
+	if _, ok := ParseSuiteNameFold("ocra-1:HOTP-SHA1-6:QN08"); ok {
+		return fmt.Errorf("folding suite parser accepts a lower-case version tag")
 	}
 	// URL codec
 	o, err := ParseOTPAuth("otpauth://totp/My%20Co%2Fx:al%3Aice%40x?secret=AB%3D&issuer=My+Co%2Fx&digits=8")
